@@ -35,7 +35,9 @@ mintcream mistyrose moccasin navajowhite navy oldlace olive olivedrab orange ora
 papayawhip peachpuff peru pink plum powderblue purple red rosybrown royalblue saddlebrown salmon sandybrown seagreen seashell sienna silver skyblue
 slateblue slategray slategrey snow springgreen steelblue tan teal thistle tomato turquoise violet wheat white whitesmoke yellow yellowgreen none""".split()
 TEXT_STYLE = ["d-text-smallest", "d-text-smaller", "d-text-small", "d-text-medium", "d-text-large", "d-text-larger", "d-text-largest",
-              "d-text-monospace", "d-text-italic", "d-text-bold", "d-text-pre"]
+              "d-text-monospace", "d-text-italic", "d-text-bold", "d-text-pre",
+              # font-weight classes that themes.rs reserves next to d-text-bold ('normal' exists because a theme may change the default weight)
+              "d-text-normal", "d-text-light"]
 TEXT_OL = ["d-text-ol", "d-text-ol-thinner", "d-text-ol-thin", "d-text-ol-medium", "d-text-ol-thick", "d-text-ol-thicker"]
 STROKE = ["d-thinner", "d-thin", "d-thick", "d-thicker"]
 LINE = ["d-dot", "d-dash", "d-flow", "d-flow-slower", "d-flow-slow", "d-flow-fast", "d-flow-faster", "d-flow-rev"]
